@@ -139,6 +139,13 @@ class Tracker:
                             self.viol.append(("C12", f"second frame with id {fid} on conn {k}", t))
                     if n == "IDENTIFY_ACK" and k == k0:
                         for (kind, params, pl) in sent:
+                            if kind == "IDENTIFY" and re.fullmatch(rb"[A-Za-z0-9]+", params.get("username", b"")) and len(sent) == 1:
+                                # a plain name is taken as it is: the connection IS that user, whatever the acknowledgement
+                                # says; the gates below (C04) judge its requests for that identity
+                                if fget(f, "nid") != params["username"] + b"@" + domain:
+                                    self.viol.append(("C07", f"IDENTIFY username={params['username'].decode()} was acknowledged as {fget(f, 'nid')!r}", t))
+                                    self.user[k] = params["username"] + b"@" + domain
+                        for (kind, params, pl) in sent:
                             if kind == "IDENTIFY" and "username" in params and b"\\" not in params["username"]:
                                 self.spelling[params["username"]] = fget(f, "nid")      # what the server makes of this spelling
                                 # (escaped spellings contain blanks, which this tokenizer splits at: not learned, not judged)
@@ -455,6 +462,11 @@ def audit_check(case, obs):
                 gone.add(int(k))
         if op["t"] == "hangup":
             gone.add(op["k"])
+        if "expect_created" in op:
+            frx = [f for f in o["conns"].get(str(op["k"]), {"frames": []})["frames"] if "undecodable" not in f]
+            errs = [fget(f, "reason") for f in frx if fname(f) == "ERROR"]
+            if errs and not any(fname(f) == "JOIN_ACK" for f in frx):
+                viol.append(("C05", f"JOIN of {op['expect_created']}, which has no member left, is answered {errs}: the emptied channel still exists with its old ACL/configuration", t))
         if "audit" not in op:
             continue
         k = op["k"]
